@@ -914,8 +914,14 @@ func c09Attribute(p c09Plan, kind string) string {
 		// whether the walk ends late, never, or in the memory limit: the timing decides which)
 		return "shared-value-walk-unguarded"
 	case (j.Skel == "recurse" || j.Skel == "mutual" || j.Skel == "closures") && used["StackUnbudgeted"] &&
-		c09EffDepth(j.MaxDepth)*c09StackPerLevel(j.Src) > j.MemLimit && (kind == "late" || kind == "rss"):
+		c09EffDepth(j.MaxDepth)*c09StackPerLevel(j.Src)*4/3 > j.MemLimit && (kind == "late" || kind == "rss" || kind == "hang"):
+		// (the collector starts thrashing on the deep stack before the stack alone reaches the limit; how late the evaluation
+		// returns - seconds, or not within the minute the check waits - is a matter of the machine)
 		return c09FindingOf["StackUnbudgeted"]
+	case j.Skel == "libgrow" && kind == "late" && j.MemLimit >= 1<<30:
+		// the library functions build their result under the memory budget, not under the deadline: with a budget of a
+		// gigabyte the refusal (or the result) comes after seconds of building
+		return "library-result-built-past-the-deadline"
 	}
 	return ""
 }
